@@ -275,6 +275,20 @@ def reader_writer_programs():
     return out
 
 
+def writer_writer_programs():
+    """One mutating call racing TWO mutating calls of another thread (a multi-step mutator
+    whose intermediate state is picked up by an insertion that has to evict)."""
+    w = [["del", "a"], ["del", "b"], ["set", "c"], ["clear", None]]
+    m = [["set", "a"], ["set", "b"], ["set", "c"], ["del", "a"]]
+    out = []
+    for cap, pre in ((2, ["a", "b"]), (1, ["a"])):
+        for x in w:
+            for y1 in m:
+                for y2 in m:
+                    out.append({"cap": cap, "pre": pre, "threads": [[x], [y1, y2]]})
+    return out
+
+
 def lru_codes(LRUCache):
     codes = []
     for name, obj in vars(LRUCache).items():
@@ -460,7 +474,12 @@ def run(ctx):
     bound = 2 if quick else 3
     progs = []
     rw = reader_writer_programs()
-    progs += [p for i, p in enumerate(rw) if ctx.mine(i)]
+    mine_rw = [p for i, p in enumerate(rw) if ctx.mine(i)]
+    ww = [p for i, p in enumerate(writer_writer_programs()) if ctx.mine(i)]
+    ctx.count("conc_writer_writer_programs", len(ww))
+    # interleaved, so that a time cut takes its toll from both directed families alike
+    for i in range(max(len(mine_rw), len(ww))):
+        progs += mine_rw[i:i + 1] + ww[i:i + 1]
     if not quick:
         small = all_small_programs()
         progs += [p for i, p in enumerate(small) if ctx.mine(i)]
